@@ -34,6 +34,14 @@ def check(ctx):
                 if ens and ctx.quick and (n1 + m1 + n2 + m2) % 3:
                     continue  # quick: ensemble ranks 1 and 2 on a third of the shape pairs
                 cases.append({"kind": "interp", "s1": [n1, m1], "s2": [n2, m2], "dtype": dt, "ens": ens})
+    # three interpolated axes (what slice_potential / charge densities use): every triple pair from a small side alphabet
+    sides = (2, 3, 5) if ctx.quick else (1, 2, 3, 4, 5)
+    for s1 in itertools.product(sides, repeat=3):
+        for s2 in itertools.product(sides, repeat=3):
+            for ens in ([], [2]):
+                if ens and (ctx.quick or sum(s1) % 2):
+                    continue
+                cases.append({"kind": "interp3d", "s1": list(s1), "s2": list(s2), "ens": ens})
     for n, m in itertools.product(range(1, 7), repeat=2):
         for dt in ("real", "complex"):
             cases.append({"kind": "shift", "shape": [n, m], "dtype": dt, "ens": []})
@@ -84,7 +92,48 @@ def relerr(a, b):
 
 
 def run_case(case):
-    return {"interp": run_interp, "shift": run_shift, "downsample": run_downsample}[case["kind"]](case)
+    return {"interp": run_interp, "interp3d": run_interp3d, "shift": run_shift, "downsample": run_downsample}[case["kind"]](case)
+
+
+def run_interp3d(case):
+    """fft_interpolate over the last THREE axes: mean, coincident samples, up-down identity (complex content)"""
+    from abtem.core.fft import fft_interpolate
+
+    s1, s2, ens = tuple(case["s1"]), tuple(case["s2"]), tuple(case["ens"])
+    viol, worst, tr = [], 0.0, 0
+
+    def chk(key, e, msg, tol=TOL):
+        nonlocal worst
+        worst = max(worst, e / tol)
+        if not e <= tol:
+            viol.append({"key": key, "msg": "%s: relative error %.3g (%s)" % (msg, e, case)})
+
+    x = rand(ens + s1, "complex", "3d")
+    x0 = x.copy()
+    y = fft_interpolate(x, s2, normalization="values")
+    tr += 1
+    if y.shape != ens + s2:
+        viol.append({"key": "interp3d/shape", "msg": "output shape %r (%s)" % (y.shape, case)})
+        return {"viol": viol}
+    scale = max(float(np.abs(x0).max()), 1e-12)
+    ax = (-3, -2, -1)
+    chk("interp3d/values-mean", float(np.abs(y.mean(axis=ax) - x0.mean(axis=ax)).max()) / scale, "'values' normalisation must preserve the mean over the three interpolated axes")
+    if all(b >= a for a, b in zip(s1, s2)):
+        back = fft_interpolate(y, s1, normalization="values")
+        tr += 1
+        chk("interp3d/updown-identity", relerr(back, x0), "upsampling then downsampling must return the original")
+        if all(b % a == 0 for a, b in zip(s1, s2)):
+            f = [b // a for a, b in zip(s1, s2)]
+            chk("interp3d/coincident-samples", relerr(y[..., :: f[0], :: f[1], :: f[2]], x0), "'values' upsampling by integer factors must pass through the original samples")
+    z = fft_interpolate(x0.copy(), s2, normalization="intensity")
+    tr += 1
+    if all(b >= a for a, b in zip(s1, s2)):  # nothing is cut off: Parseval
+        i0 = (np.abs(np.fft.fftn(x0.astype(np.complex128), axes=ax)) ** 2).sum(axis=ax)
+        i1 = (np.abs(np.fft.fftn(np.asarray(z).astype(np.complex128), axes=ax)) ** 2).sum(axis=ax)
+        chk("interp3d/intensity-sum", relerr(i1, i0), "'intensity' normalisation must preserve sum |FFT|^2 when upsampling", 5e-5)
+    if not np.array_equal(x, x0):
+        viol.append({"key": "interp3d/mutated", "msg": "the input array was modified (%s)" % (case,)})
+    return {"viol": viol, "obs": "ok" if not viol else viol[0]["key"], "nt": s1 != s2, "tr": tr, "ref": tr, "err": worst}
 
 
 def run_interp(case):
